@@ -170,6 +170,10 @@ def C12(run):
                                    'Gen.add/sub/mulOp/divOp/mul/div/muldiv = C12.*Prog (Fixed), Gen.g* = C12.g*Prog (Guarded) by rfl; fixed_*_is_program, guarded_*_is_program (lean/Props/C12Prog.lean)',
                                    'the arithmetic methods of droop/values/fixed.py, executed symbolically, no longer return the expressions '
                                    'lean/Props/C12Prog.lean proves the model to compute')
+        broken = broken + gen_gate(run, 'translator_ctor', 'gen_ctor', 'programs',
+                                   'Gen.fixedOfInt = Gen.guardedOfInt = C12.ofIntProg, Gen.minKinds = C12.minKinds by rfl; fixed_ofInt_is_program, '
+                                   'guarded_ofInt_is_program, guarded_vMin_is_loop, fixed_vMin_is_builtin (lean/Props/C12Ctor.lean)',
+                                   '__init__ (integer scaling) or min() of the value classes are no longer of the form lean/Props/C12Ctor.lean ties to the model')
     rng = rng_for(run)
     items = gen_ops(rng, budget(run, 40000, 600000), ['fixed', 'fixed', 'integer', 'rational'])
     items += grid_ops(['fixed'], R=budget(run, 5, 12), ps=(0, 1, 2) if run.tier == 'quick' else (0, 1, 2, 3, 4))
@@ -228,6 +232,10 @@ def C13(run):
                                    'Gen.g* = C12.g*Prog (Guarded) and Gen.* = C12.*Prog (Fixed) by rfl; guarded_*_is_program, fixed_*_is_program',
                                    'the arithmetic methods of droop/values/guarded.py / fixed.py, executed symbolically, no longer return the '
                                    'expressions lean/Props/C12Prog.lean proves the model to compute')
+        broken = broken + gen_gate(run, 'translator_ctor', 'gen_ctor', 'programs',
+                                   'Gen.fixedOfInt = Gen.guardedOfInt = C12.ofIntProg, Gen.minKinds = C12.minKinds by rfl; fixed_ofInt_is_program, '
+                                   'guarded_ofInt_is_program, guarded_vMin_is_loop, fixed_vMin_is_builtin (lean/Props/C12Ctor.lean)',
+                                   '__init__ (integer scaling) or min() of the value classes are no longer of the form lean/Props/C12Ctor.lean ties to the model')
         broken = broken + gen_gate(run, 'translator_cmp', 'gen_cmp', 'programs',
                                    'Gen.cmpProg = C13.cmpProg, Gen.guardedOps = C13.guardedOps, Gen.fixedOps = C13.fixedOps by rfl; cmp_is_program, '
                                    'guarded_ops_are_cmp, fixed_ops_are_int (lean/Props/C13Prog.lean)',
